@@ -21,6 +21,7 @@ def run(chk):
     # every end-of-day abort code behind a commit and a cancel that go idle, with and without a dangling pre-authorisation
     codes = range(256) if thorough else list(range(0, 256, 7)) + [160, 119]
     extra = []
+    okp0 = {"o": "ok", "status": {"amount": [1]}}
     # the dangling pre-authorisation's receipt number runs over the range of the field (1..9999)
     receipts = [77, 9999, 2, 9998, 1000, 999, 10, 4711]
     for k, code in enumerate(codes):
@@ -53,6 +54,19 @@ def run(chk):
                           "calls": [{"op": "begin", "token": [97]}, {"op": "configure"}, {"op": "begin", "token": [98]}, {"op": op, "token": [98], "amount": [1]},
                                     {"op": op, "token": [97], "amount": [1]}],
                           "plan": {"exchanges": [], "default": {"o": "ok", "status": {"amount": [1]}}}})
+    # a further begin that the terminal declines (status information with a receipt number, then abort) or fails otherwise while
+    # one transaction is open; then the open one is closed - with a final amount of 0, too
+    for bad in ({"o": "abort", "code": 108, "status_first": True}, {"o": "abort", "code": 5}, {"o": "noreceipt", "open": False}):
+        for op in ("commit", "cancel"):
+            for amt in ([], [1]):
+                for dang in ([], [4711]):
+                    tail = [{"o": "pending"}] + ([{"o": "ok"}] if dang else []) + [{"o": "ok"}]
+                    extra.append({"config": {"max": 2}, "term": {"dangling": dang},
+                                  "calls": [{"op": "begin", "token": [97]}, {"op": "begin", "token": [98]}, {"op": op, "token": [97], "amount": amt}],
+                                  "plan": {"exchanges": [okp0, bad, okp0] + tail}})
+                    extra.append({"config": {"max": 1}, "term": {"dangling": dang},
+                                  "calls": [{"op": "begin", "token": [97]}, {"op": op, "token": [97], "amount": amt}],
+                                  "plan": {"exchanges": [okp0, okp0] + tail}})
     # histories in which an earlier call failed: the later call that leaves nothing open must still clean up
     okp = {"o": "ok", "status": {"amount": [1]}}
     for second in ("commit", "cancel"):
